@@ -24,6 +24,7 @@ var c17Events = []string{
 	"split-btc", "merge-btc", "submit-btc-0.5", "submit-btc-all", "claim-last-submit",
 	"mint-next-500", "pledge", "cancel", "refinalize-last-on-other-chain", "split-xin",
 	"admit-pending-spend-btc", "takeover-finalize-competitor", "finalize-pending",
+	"finalized-cross-asset-spend",
 }
 
 type c17State struct {
@@ -218,6 +219,40 @@ func c17Apply(w *mcWallet, e int, replaying bool, report func(key, desc string))
 			c17Check(w, report)
 		}
 		return true
+	case "finalized-cross-asset-spend":
+		// a finalized snapshot carries a BTC transaction that names a XIN output
+		// of the same owner: validated the way finalized snapshots are (fork=true);
+		// if the validator lets it through it is finalized like any other member
+		xs := w.spendable(common.XINAssetId)
+		if len(xs) == 0 {
+			return false
+		}
+		u := xs[0]
+		ctx := fixc.Transfer(common.BitcoinAssetId, []*common.Input{{Hash: u.Hash, Index: u.Index}}, []fixc.Out{{To: w.acct(), T: 1, Amount: u.Amount.String()}}, w.label("cross-asset"))
+		cross := w.sign(ctx)
+		for _, fork := range []bool{false, true} {
+			var verr error
+			if pv := verifmc.Catch(func() { verr = cross.Validate(w.L.Store, w.Time, fork) }); pv != nil {
+				return false
+			}
+			if verr != nil {
+				continue
+			}
+			var ferr error
+			p := verifmc.Catch(func() {
+				if ferr = cross.LockInputs(w.L.Store, fork); ferr != nil {
+					return
+				}
+				_, ferr = w.L.Store.VerifFinalize(w.L.Net.NodeIds[w.Chain], w.Time, false, cross)
+			})
+			w.Time += 1e9
+			report("cross-asset-spend-validated", fmt.Sprintf("a %s-asset transaction spending a XIN output validated (fork=%v); finalization: %v %v", "BTC", fork, p, ferr))
+			if !replaying {
+				c17Check(w, report)
+			}
+			return true
+		}
+		return false
 	case "refinalize-last-on-other-chain":
 		if w.LastFinal == nil {
 			return false
